@@ -56,8 +56,14 @@ Fixpoint dec_stmt (v : wv) : option stmt :=
   | WL [WI 4; l] => option_map SAnim (un_text l)
   | WL [WI 5] => Some SBreak
   | WL [WI 6; x; WL b] =>
-      match un_text x, decs b with Some n, Some bb => Some (SIf n bb) | _, _ => None end
+      match un_text x, decs b with Some n, Some bb => Some (SIf n bb []) | _, _ => None end
+  | WL [WI 6; x; WL b; WL e] =>
+      match un_text x, decs b, decs e with Some n, Some bb, Some ee => Some (SIf n bb ee) | _, _, _ => None end
   | WL [WI 7; WI c; WL b] => option_map (SFor (Z.to_nat c)) (decs b)
+  | WL [WI 8; x; WL b] =>
+      match un_text x, decs b with Some n, Some bb => Some (SWhile n bb) | _, _ => None end
+  | WL [WI 9; WL b; WL h] =>
+      match decs b, decs h with Some bb, Some hh => Some (STry bb hh) | _, _ => None end
   | _ => None
   end.
 
@@ -156,8 +162,10 @@ Fixpoint enc_irn (n : irn) : wv :=
   | NShow x => WL [WI 4; wtext x]
   | NAnim l => WL [WI 5; wtext l]
   | NBreak => WL [WI 6]
-  | NIf x b => WL [WI 7; wtext x; WL (map enc_irn b)]
+  | NIf x b e => WL [WI 7; wtext x; WL (map enc_irn b); WL (map enc_irn e)]
   | NFor c b => WL [WI 8; WI (Z.of_nat c); WL (map enc_irn b)]
+  | NWhile x b => WL [WI 11; wtext x; WL (map enc_irn b)]
+  | NTry b h => WL [WI 12; WL (map enc_irn b); WL (map enc_irn h)]
   | NPoll b => WL [WI 9; wtext b]
   | NTick l => WL [WI 10; wtext l]
   end.
